@@ -107,7 +107,7 @@ Commit == Becomes(WriteAll(Cur, pend)) /\ pend' = <<>> /\ res' = [op |-> "commit
 Reopen == Same /\ pend' = <<>> /\ res' = [op |-> "reopen"]
 
 Get(x, k) == Read([op |-> "get", x |-> x, k |-> k, found |-> idx[x][k] # None, v |-> idx[x][k]])
-Has(x, k) == Read([op |-> "has", x |-> x, k |-> k, found |-> idx[x][k] # None])
+HasKey(x, k) == Read([op |-> "has", x |-> x, k |-> k, found |-> idx[x][k] # None])
 HasMulti(x, ks) == Read([op |-> "hasmulti", x |-> x, ks |-> ks, found |-> [j \in 1..Len(ks) |-> idx[x][ks[j]] # None]])
 Fill(x, ks) == Read([op |-> "fill", x |-> x, ks |-> ks, ok |-> \A j \in 1..Len(ks) : idx[x][ks[j]] # None,
                      vs |-> [j \in 1..Len(ks) |-> idx[x][ks[j]]]])
@@ -150,7 +150,7 @@ IndexWrites == \E x \in Idx : \E k \in KeysOf(x) : \/ \E v \in Vals : Put(x, k, 
                                                \/ Del(x, k) \/ BDel(x, k)
 IndexReads ==
   \E x \in Idx :
-     \/ \E k \in KeysOf(x) : Get(x, k) \/ Has(x, k) \/ CountFrom(x, k)
+     \/ \E k \in KeysOf(x) : Get(x, k) \/ HasKey(x, k) \/ CountFrom(x, k)
      \/ \E ks \in KeyLists(x) : HasMulti(x, ks) \/ Fill(x, ks)
      \/ \E pfx \in PfxOf(x) : FirstItem(x, pfx) \/ LastItem(x, pfx)
      \/ Count(x)
@@ -169,7 +169,7 @@ FieldReads == UGet \/ SGet \/ \E j \in VecIdx : VGet(j)
 
 \* a little of the other half, so that both kinds of keys are present in either mode
 FewIndexOps == \E x \in Idx : \E k \in {CHOOSE k \in KeysOf(x) : TRUE} : Put(x, k, CHOOSE v \in Vals : TRUE) \/ BDel(x, k) \/ Count(x)
-FewFieldOps == UPut(CHOOSE v \in FVals : v > 0) \/ UBInc \/ SGet
+FewFieldOps == UPut(CHOOSE v \in FVals : v > 0) \/ UBPut(0) \/ UGet
 
 Next == \/ Commit \/ Reopen
         \/ Mode \in {"index", "all"} /\ (IndexWrites \/ IndexReads)
